@@ -589,6 +589,8 @@ class Manager:
         # TODO: Refactor this method.
 
         if event.cancelled:
+            # a cancelled event is done as far as completion tracking goes
+            self._effectDone(event, announce=False)
             return
 
         if event.complete:
@@ -696,6 +698,9 @@ class Manager:
             channels = getattr(event, 'success_channels', event.channels)
             self.fire(event.child('success', event, event.value.value), *channels)
 
+        self._effectDone(event)
+
+    def _effectDone(self, event, announce=True):
         while True:
             # cause attributes indicates interest in completion event
             cause = getattr(event, 'cause', None)
@@ -705,7 +710,7 @@ class Manager:
             event.effects -= 1
             if event.effects > 0:
                 break  # some nested events remain to be completed
-            if event.complete:  # does this event want signaling?
+            if event.complete and announce:  # does this event want signaling?
                 self.fire(
                     event.child('complete', event, event.value.value),
                     *getattr(event, 'complete_channels', event.channels),
@@ -716,6 +721,7 @@ class Manager:
             delattr(event, 'effects')
             # cause has one of its nested events done, decrement and check
             event = cause
+            announce = True
 
     def _signal_handler(self, signo, stack):
         self.fire(signal(signo, stack))
